@@ -14,6 +14,15 @@ import collections, json, os, random, re, shutil, subprocess
 import vlib, adef, l2
 from checks import gen_common
 
+
+def _big_stack():
+    """coqc reads back result strings of ~100 KB (deeply nested constructors): lift the 8 MB stack limit for children"""
+    import resource
+    try:
+        resource.setrlimit(resource.RLIMIT_STACK, (resource.RLIM_INFINITY, resource.RLIM_INFINITY))
+    except (ValueError, OSError):
+        pass
+
 RULE = ("generated enums (full coverage implicit/explicit/permuted, partial coverage with try, default, catch-all, both, "
         "gaps; uint and int base; widths 1..10 quick / 1..16 thorough) each with reuse by name (Direct conversion `En`) on "
         "narrower / equal fields (unsafe getter), wider fields (plain into, only when a From exists) and try fields, in "
@@ -485,7 +494,9 @@ def run_batch(ctx, exe, defs, name, keep=False, depth=0):
         site_range[i] = (first, len(sites))
         mods[mod] = r["pretty"]
         terms.append((c["id"], gen_common.mir_term(r)))
-    model = gen_common.eval_model(ctx, ["Enum"], "c07_result", terms, tag=name + "_model")
+    # small shards: one 2^16-value definition costs seconds, so spread them over the cores
+    model = vlib.coq_eval_strings(ctx, gen_common.PREAMBLE.format(mods="Enum"), [(i, f"c07_result ({t})") for i, t in terms],
+                                  shard_size=6, tag=name + "_model")
     l2.write_crate(ctx, name, mods, make_main(blocks))
     ok, out = l2.build(ctx, name)
     if not ok:
@@ -530,6 +541,11 @@ def run_batch(ctx, exe, defs, name, keep=False, depth=0):
         for sid, line in il[1:]:
             stats["getter_" + line.split(" ")[1].split(":")[0]] += 1
         crashed = {s for s, _, _ in crashes}
+        if (model.get(c["id"]) or "").startswith("<<COQ-ERROR"):
+            if not stats["model_errors"]:
+                violations.append({"what": "evaluating the Coq model failed (harness problem, not a verdict)", "model_output": model.get(c["id"])[:800]})
+            stats["model_errors"] += 1
+            continue
         if len(ml) != len(il):
             violations.append({"what": "model and implementation list different conversions", "failing_input": {"syntax": "dsl", "text": c["text"]},
                                "implementation": [x for _, x in il], "model": ml})
@@ -581,6 +597,7 @@ def miri_subset(ctx, exe, rng):
 
 
 def run(ctx):
+    _big_stack()
     info = vlib.coq_gate(ctx)
     exe, err = gen_common.build_gen_runner(ctx)
     if err:
@@ -647,6 +664,7 @@ def replay(ctx, path):
     if not fi:
         run(ctx)
         return
+    _big_stack()
     vlib.coq_gate(ctx)
     exe, err = gen_common.build_gen_runner(ctx)
     # rebuild the adef-independent parts from the text: re-run the generator, use facts to drive the driver
